@@ -190,6 +190,11 @@ def _build_maker(rng, P):
   chart = gen.gen_chart(rng, P)
   chart["build"] = rng.choice(["hand", "template", "factory", "tocode", "tocode"])
   chart["spied"] = True
+  chart["names"] = ["s%d" % (i + 1) for i in range(chart["n"])]      # the registries are keyed by state name: names are unique here
+  chart["hstyle"] = "fn"
+  # what kind of callable the registered callbacks are: plain functions, functools.partial objects, objects with __call__,
+  # or (template / Factory only: the generated text calls cb(chart, e)) bound methods of the chart
+  chart["cbstyle"] = rng.choice(["def", "def", "partial", "object"] + (["method"] if chart["build"] in ("template", "factory") else []))
   chart["host"] = "factory" if chart["build"] == "factory" or (chart["build"] == "tocode" and rng.random() < 0.3) else "queued"
   chart["live_spy"] = chart["live_trace"] = False
   if chart["host"] == "factory":
@@ -208,7 +213,8 @@ def _attr_c17(v):
 def c17(tier):
   run = common.Run("C17", tier, "model_checking")
   run.assumptions += ASSUME_SEQ + [
-    "callbacks are plain functions with unique names (not bound methods, not named 'handled'); states are passed as functions, not strings",
+    "callbacks are plain functions, functools.partial objects, callable objects or (template/Factory builds) bound methods of the chart, "
+    "each with a unique __name__ other than 'handled'; states are passed as functions, not strings",
     "the Factory chart is driven through HsmWithQueues.start_at/next_rtc without starting the active object's thread"]
   P = gen.profile(nmin=1, nmax=8, deep=0.6, p_init=0.4, live=0.0, clocks=("fine",), p_eff=0.3, hosts=(("queued", 1),),
                   p_spied=1.0, caps=(3, 500), nops=(3, 10),
